@@ -97,7 +97,9 @@ class LenPrefixed(FileBasedPacketSerializer[bytes, bytes]):
        payload starting with b"?"   -> KeyError   (NOT declared: escapes)
        variant b"eager": a short read leaves the file position at the end (what pickle/cbor do)
        variant b"lazy" : a short read is detected from the buffer size and leaves the position after the length byte
-       variant b"back1": ValueError is raised after stepping the file position back by one byte"""
+       variant b"back1": ValueError is raised after stepping the file position back by one byte
+       variant b"seek1": ValueError is raised after file.seek(1) (an error position far behind what was read: with a small
+                         receive buffer the remainder does not fit and BufferedStreamDataConsumer raises ValueError)"""
 
     def __init__(self, limit, variant=b"eager"):
         super().__init__(expected_load_error=(ValueError,), limit=limit)
@@ -121,6 +123,8 @@ class LenPrefixed(FileBasedPacketSerializer[bytes, bytes]):
         if payload[:1] == b"!":
             if self.variant == b"back1":
                 file.seek(file.tell() - 1)
+            elif self.variant == b"seek1":
+                file.seek(1)
             raise ValueError("bang")
         if payload[:1] == b"?":
             raise KeyError("what")
